@@ -2594,6 +2594,11 @@ class PGPKey(Armorable, ParentRef, PGPObject):
         :returns: A new :py:obj:`PGPMessage` with the decrypted contents of ``message``.
         """
         if not message.is_encrypted:
+            if message._sessionkeys:
+                # session key packets belong to an encrypted container (RFC 4880, section 11.3); without one this is not a plain
+                # message that may be handed back, it is a damaged or manipulated encrypted message
+                raise PGPDecryptionError("This message has session key packets but no encrypted data")
+
             warnings.warn("This message is not encrypted", stacklevel=3)
             return message
 
